@@ -210,6 +210,27 @@ class C06(vlib.Check):
                         continue
                     yield {"t": "metric", "m": m, "form": form, "a": a, "b": b, "seed": rng.randrange(10 ** 6)}
                     yield {"t": "metric", "m": m, "form": form, "a": a, "b": a, "seed": rng.randrange(10 ** 6)}
+        # whole matrices: several rows on either side, empty rows at the first / middle / last position, every measure and route -
+        # entry (i, j) is the definition's value for row i of X and row j of Y
+        for _ in range(10 if self.tier == "quick" else 200):
+            bits = rng.choice([16, 64, 1024])
+            kind = rng.choice(KINDS)
+            def rows(n):
+                out = []
+                for _k in range(n):
+                    f = gen_fp(rng, kind, bits, level=5, maxn=6, style=rng.choice(["sparse", "sparse", "low", "empty"]))
+                    if kind == "count":
+                        f["cnt"] = [[i, v if int(v) <= 255 else "255"] for i, v in f["cnt"]]
+                    out.append(f)
+                return out
+            xs, ys = rows(rng.randint(2, 6)), rows(rng.randint(2, 6))
+            for pos in rng.sample(["x-first", "x-last", "y-first", "y-middle", "y-last"], 2):
+                tgt = xs if pos[0] == "x" else ys
+                k = {"first": 0, "middle": len(tgt) // 2, "last": len(tgt) - 1}[pos[2:]]
+                tgt[k] = {"kind": kind, "bits": bits, "level": 5, "idx": [], "cnt": []}
+            self.count("whole-matrix")
+            yield {"t": "matrix", "kind": kind, "bits": bits, "xs": xs, "ys": ys, "seed": rng.randrange(10 ** 6),
+                   "a": xs[0], "b": ys[0], "m": "tanimoto", "form": "matrix"}
         # large unfolded fingerprints: fingerprint forms only
         for _ in range(n // 3):
             ka = rng.choice(KINDS)
@@ -336,7 +357,50 @@ class C06(vlib.Check):
             return {i: Fraction(int(v)) for i, v in xb.items()}
         return xb
 
+    def _matrix_prop(self, case):
+        r = random.Random(case["seed"])
+        xs, ys, bits, kind = case["xs"], case["ys"], case["bits"], case["kind"]
+        fl = lambda f: {"kind": "float", "bits": bits, "level": 5, "idx": sorted(vec(f)), "cnt": [[i, str(v)] for i, v in sorted(vec(f).items())]}  # noqa: E731
+        for m in MEASURES:
+            binary = m in BINARY
+            routes = {}
+            dbx, dby = FingerprintDatabase(fp_type=CLS[kind], level=5), FingerprintDatabase(fp_type=CLS[kind], level=5)
+            dbx.add_fingerprints([make_fp(f) for f in xs])
+            dby.add_fingerprints([make_fp(f) for f in ys])
+            routes["db-db"] = lambda: np.asarray(getattr(M, m)(dbx, dby))
+            routes["db-single"] = None
+            dt = np.bool_ if binary else float
+            X, Y = csr_rows([fl(f) for f in xs], bits, dt), csr_rows([fl(f) for f in ys], bits, dt)
+            routes["sparse"] = lambda: np.asarray(getattr(AM, m)(X, Y))
+            Xs, Ys = csr_rows([fl(f) for f in xs], bits, dt, "shuffle", rng=r), csr_rows([fl(f) for f in ys], bits, dt, "shuffle", rng=r)
+            routes["sparse-unsorted"] = lambda: np.asarray(getattr(AM, m)(Xs, Ys))
+            routes["dense"] = lambda: np.asarray(getattr(AM, m)(X.toarray(), Y.toarray()))
+            for name, fn in routes.items():
+                if fn is None:
+                    continue
+                try:
+                    S = fn()
+                except Exception as e:  # noqa: BLE001
+                    return {"key": "metric-raises:%s:matrix-%s:%s" % (m, name, type(e).__name__), "what": "%s on a %dx%d problem (%s) raised %r" % (m, len(xs), len(ys), name, e)}
+                if S.shape != (len(xs), len(ys)):
+                    return {"key": "metric-shape:%s:matrix-%s" % (m, name), "what": "result shape %s for %d x %d rows" % (S.shape, len(xs), len(ys))}
+                for i, fx in enumerate(xs):
+                    for j, fy in enumerate(ys):
+                        xa, xb = vec(fx), vec(fy)
+                        if binary:
+                            xa = {k: Fraction(1) for k, v in xa.items() if v != 0}
+                            xb = {k: Fraction(1) for k, v in xb.items() if v != 0}
+                        want = definition(m, xa, xb, bits)
+                        if not close(S[i, j], want):
+                            return {"key": "metric-wrong:%s:matrix-%s" % (m, name),
+                                    "what": "%s, %s route: entry (%d, %d) of a %d x %d matrix is %r, the definition gives %r (empty rows: X %s, Y %s)" % (
+                                        m, name, i, j, len(xs), len(ys), float(S[i, j]), float(want),
+                                        [k for k, f in enumerate(xs) if not f["idx"]], [k for k, f in enumerate(ys) if not f["idx"]])}
+        return None
+
     def impl(self, case):
+        if case["t"] == "matrix":
+            return {"ok": "see prop"}
         if case["t"] == "mismatch":
             return attempt(lambda: self._call(case) and "accepted")
         r = attempt(lambda: self._call(case))
@@ -345,6 +409,8 @@ class C06(vlib.Check):
         return r
 
     def model_ops(self, case):
+        if case["t"] == "matrix":
+            return [{"op": "fpr.hash", "words": []}]
         a, b, m, form = case["a"], case["b"], case["m"], case["form"]
         if case["t"] == "mismatch":
             if form in ("fp-fp", "fp-db", "db-db"):
@@ -399,6 +465,8 @@ class C06(vlib.Check):
         return [{"op": "met.arr", "m": m, "x": ra, "y": rb, "bits": a["bits"], "dense": form in ("dense", "dense-nojit")}]
 
     def model_answer(self, case, answers):
+        if case["t"] == "matrix":
+            return {"ok": "see prop"}
         if case["t"] == "mismatch":
             if case["form"] in ("fp-fp", "fp-db", "db-db"):
                 return answers[0]
@@ -412,6 +480,8 @@ class C06(vlib.Check):
         return a
 
     def compare(self, case, a_impl, a_model):
+        if case["t"] == "matrix":
+            return None
         if case["t"] == "mismatch":
             if case["form"] in ("fp-fp", "fp-db", "db-db") and ("err" in a_impl) != ("err" in a_model):
                 return {"impl": a_impl, "model": a_model}
@@ -427,6 +497,8 @@ class C06(vlib.Check):
 
     # ------------------------------------------------------------------ the property
     def prop(self, case):
+        if case["t"] == "matrix":
+            return self._matrix_prop(case)
         a, b, m, form = case["a"], case["b"], case["m"], case["form"]
         if case["t"] == "mismatch":
             r = self.impl(case)
@@ -463,6 +535,8 @@ class C06(vlib.Check):
         return None
 
     def nontrivial(self, case, a_impl):
+        if case["t"] == "matrix":
+            return vlib.canon(case)
         if case["t"] != "metric" or not case["a"]["idx"] or not case["b"]["idx"] or case["a"] == case["b"]:
             return None
         return vlib.canon([case["m"], case["form"], case["a"], case["b"]])
